@@ -41,6 +41,10 @@ class vlan(packet_base):
 
     MIN_LEN = 4
 
+    # Tags nested deeper than this are left unparsed (a full-sized frame has
+    # room for hundreds of them, which is more than the interpreter's stack)
+    MAX_NESTING = 16
+
     def __init__(self, raw=None, prev=None, **kw):
         packet_base.__init__(self)
 
@@ -79,6 +83,15 @@ class vlan(packet_base):
         self.id  = pcpid  & 0x0fff
 
         self.parsed = True
+
+        depth = 0
+        p = self.prev
+        while isinstance(p, vlan):
+            depth += 1
+            p = p.prev
+        if depth >= vlan.MAX_NESTING:
+            self.next = raw[vlan.MIN_LEN:]
+            return
 
         self.next = ethernet.parse_next(self,self.eth_type,raw,vlan.MIN_LEN)
 
